@@ -25,6 +25,9 @@ pub struct Scn {
     pub out_opt: bool,
     pub len: usize,
     pub seed: u64,
+    /// the output path already holds a file of the input's size (a second run onto the same name)
+    #[serde(default)]
+    pub prior_output: bool,
 }
 
 pub struct B7;
@@ -47,6 +50,9 @@ fn run_one(s: &Scn, len: usize) -> (Finished, bool, String) {
         _ => pt.clone(),
     };
     sb.write("input.bin", &input);
+    if s.prior_output {
+        sb.write("output.bin", &input);
+    }
     drop(input);
     let mut args: Vec<String> = match s.op {
         Op::Encrypt => vec!["encrypt".into(), "-t".into(), w.names[1].clone(), "-f".into(), w.names[0].clone(), "-k".into(), "keyring.txt".into()],
@@ -118,7 +124,7 @@ impl Family for B7 {
             _ => Op::PassDecrypt,
         };
         let sizes: &[usize] = if tier == Tier::Quick { &[24 << 20, 48 << 20] } else { &[16 << 20, 64 << 20, 128 << 20, 256 << 20] };
-        Scn { op, in_file: m & 4 == 4, out_opt: m & 8 == 8, len: *rng.pick(sizes) + rng.usize_below(3), seed: rng.next_u64() }
+        Scn { op, in_file: m & 4 == 4, out_opt: m & 8 == 8, len: *rng.pick(sizes) + rng.usize_below(3), seed: rng.next_u64(), prior_output: rng.chance(1, 2) }
     }
     fn execute(&self, s: &Scn) -> RunOut {
         let mut out = RunOut::default();
@@ -133,7 +139,10 @@ impl Family for B7 {
             out.violations.push(viol("C11", "cli_stream_failed", format!("{}: {:?} {} {}", what, big.status, big_why, big.stderr_text().chars().take(200).collect::<String>())));
         }
         // peak RSS independent of the input length (8 MiB of slack for allocator and page-cache noise)
-        if base.max_rss_kib > 0 && big.max_rss_kib > base.max_rss_kib + 8 * 1024 {
+        // The sampled VmHWM of a 0.1 s baseline can miss its own scrypt peak (32 MiB) on a loaded
+        // machine, so the reference level is never taken below 48 MiB - still less than the smallest
+        // input used here, so buffering proportional to the input is seen.
+        if base.max_rss_kib > 0 && big.max_rss_kib > base.max_rss_kib.max(48 * 1024) + 8 * 1024 {
             out.violations.push(viol("C11", "cli_memory_grows_with_input", format!("{}: peak RSS {} KiB, {} KiB for the same command on 1 MiB", what, big.max_rss_kib, base.max_rss_kib)));
         }
         // RSS values vary by a few pages between runs: they are evidence, not part of the trace
